@@ -7,6 +7,7 @@ import math
 from rv.core import ctx as _ctx
 from rv.core import instrument
 from rv.core.tolerances import REAL_TOL
+from rv.core import calling
 from rv.gen import geoms
 
 ANCHORS = ("geometry/conversion.py", "geometry/operations.py", "geometry/features.py")
@@ -223,6 +224,8 @@ def judge(ctx, spec, positions=POSITIONS):
     valid = geoms.is_shapely_valid(g)
     for p in positions:
         try:
+            if ctx.every([spec, p], 6):
+                calling.agree(ctx, "get_geometry_point", G.get_geometry_point, dict(geometry=g, position=p), {"kind": "point", "g": spec, "position": p})
             G.get_geometry_point(g, position=p)
         except Exception as e:
             if not valid and p in ("centroid", "point_on_surface"):
